@@ -12,6 +12,7 @@
 -/
 import GilVerif.Model.C01
 import GilVerif.Props.C02
+import GilVerif.Props.C03
 import Mathlib.Tactic.Ring
 import Mathlib.Tactic.Linarith
 import Mathlib.Tactic.SplitIfs
@@ -697,5 +698,52 @@ example : (⟨1, 1, true, 3, [], 0⟩ : Org).WF ∧ (allocate ⟨1, 1, true, 3, 
     ∧ (allocate ⟨1, 1, true, 3, [], 0⟩ (fun _ => 6) 2 2 4).view = ⟨2, 1, 4, 2, 2⟩ ∧ (allocate ⟨1, 1, true, 3, [], 0⟩ (fun _ => 6) 2 2 4).plane 2 = 16
     ∧ ReuseOK ⟨1, 1, true, 3, [], 0⟩ (fun _ => Img.empty ⟨1, 1, true, 3, [], 0⟩ 0) (allocate ⟨1, 1, true, 3, [], 0⟩ (fun _ => 6) 2 2 4) [⟨.dimsFill, 5, 1, 0, true⟩]
     ∧ (recreateAll ⟨1, 1, true, 3, [], 0⟩ (fun _ => Img.empty ⟨1, 1, true, 3, [], 0⟩ 0) (allocate ⟨1, 1, true, 3, [], 0⟩ (fun _ => 6) 2 2 4) [⟨.dimsFill, 5, 1, 0, true⟩]).plane 2 = 10 := by decide
+
+/-! ### access by iterator and by locator (through C03) -/
+
+section
+open GilVerif.Model.C03
+
+/-- **access by iterator and locator**: each of image_view's navigation paths (`view(x,y)`, `row_begin(y)[x]`, `col_begin(x)[y]`,
+    `begin()[y*w+x]`, `at(x,y)`, `rbegin()[…]`, cached location) over any view derived from an image -- every organisation,
+    every iterator kind -- lands on an in-range image pixel, so the access stays inside the allocation (C03_paths_agree + C02_compose) -/
+theorem C01_paths_in_bounds (o : Org) (w h a m : Int) (ts : List Xform) (k : GilVerif.Model.C03.Kind) (x y cx cy : Int) (hwf : o.WF) (hno : NoOvf o w h a m)
+    (hv : validAll ts (imageView o w h a m))
+    (hr : (GilVerif.Model.C02.applyMemAll ts (imageView o w h a m)).InRange x y)
+    (hk : k.Natural (GilVerif.Model.C02.applyMemAll ts (imageView o w h a m)).xs)
+    (hov : k.planar = true → k.xstep = false → k.chan < 18446744073709551616 ∧ x * k.chan < 9223372036854775808) :
+    ∀ p ∈ [pathCall k (GilVerif.Model.C02.applyMemAll ts (imageView o w h a m)) x y,
+           pathRow k (GilVerif.Model.C02.applyMemAll ts (imageView o w h a m)) x y,
+           pathCol k (GilVerif.Model.C02.applyMemAll ts (imageView o w h a m)) x y,
+           pathBegin k (GilVerif.Model.C02.applyMemAll ts (imageView o w h a m)) x y,
+           pathAt k (GilVerif.Model.C02.applyMemAll ts (imageView o w h a m)) x y,
+           pathRbegin k (GilVerif.Model.C02.applyMemAll ts (imageView o w h a m)) x y,
+           pathCached k (GilVerif.Model.C02.applyMemAll ts (imageView o w h a m)) cx cy x y],
+      within (allocBytes o w h a) (footprint o (rowUnits o w a * h) p) := by
+  obtain ⟨p1, p2, p3, p4, p5, p6, p7⟩ := GilVerif.Props.C03.C03_paths_agree k _ x y cx cy hr hk hov
+  have hin := C01_derived_in_bounds_all o w h a m ts x y hwf hno hv hr
+  intro p hp
+  simp only [List.mem_cons, List.mem_nil_iff, or_false] at hp
+  rcases hp with e | e | e | e | e | e | e <;> rw [e] <;> first | (rw [p1]; exact hin) | (rw [p2]; exact hin) | (rw [p3]; exact hin) | (rw [p4]; exact hin) | (rw [p5]; exact hin) | (rw [p6]; exact hin) | (rw [p7]; exact hin)
+
+/-- **a locator moved by any sequence of 2-D offsets and axis-iterator steps** from an in-range pixel (x0,y0) of a derived view:
+    if the summed offset is again an in-range pixel, the locator's position is that pixel's address, inside the allocation
+    (intermediate positions are never dereferenced) -/
+theorem C01_moves_in_bounds (o : Org) (w h a m : Int) (ts : List Xform) (k : GilVerif.Model.C03.Kind) (x0 y0 : Int) (ms : List Move) (hwf : o.WF) (hno : NoOvf o w h a m)
+    (hv : validAll ts (imageView o w h a m))
+    (hr : (GilVerif.Model.C02.applyMemAll ts (imageView o w h a m)).InRange (x0 + (sumMoves ms).1) (y0 + (sumMoves ms).2))
+    (hk : k.Natural (GilVerif.Model.C02.applyMemAll ts (imageView o w h a m)).xs) :
+    within (allocBytes o w h a) (footprint o (rowUnits o w a * h)
+      (runMoves k ((View.loc (GilVerif.Model.C02.applyMemAll ts (imageView o w h a m))).move k x0 y0) ms).pos) := by
+  have hm := (GilVerif.Props.C03.C03_moves k ((View.loc (GilVerif.Model.C02.applyMemAll ts (imageView o w h a m))).move k x0 y0) ms
+    (by simpa [Loc.move, View.loc] using hk)).1
+  have hin := C01_derived_in_bounds_all o w h a m ts _ _ hwf hno hv hr
+  have e : (runMoves k ((View.loc (GilVerif.Model.C02.applyMemAll ts (imageView o w h a m))).move k x0 y0) ms).pos
+      = (GilVerif.Model.C02.applyMemAll ts (imageView o w h a m)).addr (x0 + (sumMoves ms).1) (y0 + (sumMoves ms).2) := by
+    rw [hm]
+    simp only [Loc.move, View.loc, GilVerif.Props.C03.C03_memAdvance, GilVerif.Props.C03.C03_kernel_loc_offset, View.addr]
+    ring
+  rw [e]; exact hin
+end
 
 end GilVerif.Props.C01
